@@ -117,6 +117,10 @@ def reset_ticks(limit=None):
     TICKS.clear()
 
 
+def _no_warn(*a, **k):
+    return None
+
+
 def _sx_isinstance(x, t):
     if isinstance(x, symstr.SymStr):
         if t is str:
@@ -181,6 +185,8 @@ class _Loader(importlib.abc.Loader):
         exec(code, module.__dict__)
         if short in SHIM_NUMPY_IN and "np" in module.__dict__:
             module.__dict__["np"] = npshim.np
+        if "warn" in module.__dict__:
+            module.__dict__["warn"] = _no_warn
 
 
 class _Finder(importlib.abc.MetaPathFinder):
